@@ -95,6 +95,29 @@ func C09(p *core.Program, r *core.Report) {
 	checkNoTrimmedConcatenation(p, r, "W5")
 	// W6: the word counters split where the text view splits
 	checkWordCounterSplits(p, r, "W6")
+	// W7: the text view judges visibility on the processed clone, the walk (and WordCount) on the
+	// page: the two agree only if an attribute the visibility decision reads survives the strip
+	// together with everything its rule reads. The aria-hidden rule also reads the class attribute,
+	// which StripAttributes always drops, so aria-hidden must not be in the allow-list.
+	if dp := p.SSAPkgs[core.ExpandKey(domutilPkg)]; dp != nil {
+		for _, mem := range dp.Members {
+			g, ok := mem.(*ssa.Global)
+			if !ok {
+				continue
+			}
+			tbl, ok := p.GlobalConst(g)
+			if !ok {
+				continue
+			}
+			have := map[string]bool{}
+			for _, k := range tableKeys(tbl) {
+				have[k] = true
+			}
+			if have["href"] && have["src"] && have["alt"] {
+				r.Add("W7", "the attribute allow-list does not keep aria-hidden (its rule also reads class, which is always dropped)", p.Pos(g.Pos()), !have["aria-hidden"], fmt.Sprintf("%d allowed attributes", len(have)))
+			}
+		}
+	}
 
 	r.Floor("W1", 7)
 
@@ -332,7 +355,14 @@ func checkWordCounterSplits(p *core.Program, r *core.Report, rule string) {
 					bad = append(bad, fmt.Sprintf("U+%04X", sp))
 				}
 			}
-			r.Add(rule, "word matcher "+pat+" splits at every white-space character the text view splits at", p.Pos(call.Pos()), len(bad) == 0, "one word instead of two around: "+strings.Join(bad, " "))
+			// ... and nowhere else inside a word: format characters (soft hyphen, zero-width space,
+			// joiners, BOM) are no white space for strings.Fields either
+			for _, fc := range []rune{0xAD, 0x200B, 0x200C, 0x200D, 0x2060, 0xFEFF} {
+				if n := len(re.FindAllString("ab"+string(fc)+"cd", -1)); n != 1 {
+					bad = append(bad, fmt.Sprintf("splits at U+%04X", fc))
+				}
+			}
+			r.Add(rule, "word matcher "+pat+" splits at every white-space character the text view splits at (and at no format character)", p.Pos(call.Pos()), len(bad) == 0, "one word instead of two around / split at: "+strings.Join(bad, " "))
 		}
 	}
 	r.Floor(rule, 2)
